@@ -240,5 +240,164 @@ def run(ctx):
     vlib.finish_broken_obligations(ctx)
 
 
+def gen_e2e(rng, long):
+    seed = rng.randint(1, 2 ** 31)
+    rejects = 1 if rng.random() < 0.85 else 0
+    steps = [[0, rng.randint(0, 3)]]
+    n = rng.randint(3, 12 if long else 8)
+    for _ in range(n):
+        r = rng.random()
+        if r < 0.3: steps.append([0, rng.randint(0, 5)])
+        elif r < 0.45: steps.append([1, rng.randint(0, 7)])
+        elif r < 0.62: steps.append([2, rng.randint(0, 1)])
+        elif r < 0.72: steps.append([3, rng.choice([0, 1, 3, 5, 9])])
+        elif r < 0.8: steps.append([4])
+        elif r < 0.92: steps.append([5])
+        else: steps.append([6])
+    if rng.random() < 0.7:   # make sure repacking happens: forget an old snapshot, prune, restore
+        steps += [[1, 0], [2, rng.randint(0, 1)], [5]]
+    dmg_p = rng.choice([0, 200, 500, 1000])
+    dmg_cfg = 1 if rng.random() < 0.4 else 0
+    trunc = 1 if rng.random() < 0.5 else 0
+    fail_at = rng.randint(4, 70) if rng.random() < 0.3 else 0
+    toks = [seed, rejects, len(steps)]
+    for s in steps: toks += s
+    toks += [dmg_p, dmg_cfg, trunc, fail_at]
+    return " ".join(map(str, toks))
+
+
+def cut_log(logline, n):
+    t = logline.split()
+    nt = int(t[0])
+    total = int(t[1 + nt])
+    n = min(n, total)
+    return " ".join(t[:1 + nt] + [str(n)] + t[2 + nt:2 + nt + 7 * n])
+
+
+def run_parallel(exe, lines, mode, bdir, nproc):
+    """Run the cases on several processes (one case file each); results in input order."""
+    import subprocess
+    chunks = [lines[i::nproc] for i in range(nproc)]
+    procs = []
+    for ci, ch in enumerate(chunks):
+        if not ch: procs.append(None); continue
+        path = os.path.join(bdir, "in_%s_%d_%d.txt" % (mode, os.getpid(), ci))
+        open(path, "w").write("\n".join(ch) + "\n")
+        procs.append((path, subprocess.Popen([exe, path, mode], stdout=subprocess.PIPE, stderr=subprocess.DEVNULL, text=True)))
+    outs = []
+    for pr, ch in zip(procs, chunks):
+        if pr is None: outs.append([]); continue
+        path, p = pr
+        try:
+            o, _ = p.communicate(timeout=3000)
+        except Exception:
+            p.kill(); o = ""
+        os.remove(path)
+        res = o.splitlines()
+        if len(res) != len(ch):
+            raise RuntimeError("%s %s: %d of %d result lines" % (exe, mode, len(res), len(ch)))
+        outs.append(res)
+    res = [None] * len(lines)
+    for ci, o in enumerate(outs):
+        for j, x in enumerate(o):
+            res[ci + j * nproc] = x
+    return res
+
+
 def e2e_stage(ctx, impl, model, cov):
-    return [], []
+    rng = ctx.rng
+    n = 120 if ctx.thorough() else 24
+    cases = []
+    corpus = os.path.join(ctx.pdir, "corpus.txt")
+    if os.path.exists(corpus):
+        for ln in open(corpus):
+            ln = ln.split("#")[0].strip()
+            if ln.startswith("e2e "): cases.append(ln[4:].strip())
+    while len(cases) < n:
+        cases.append(gen_e2e(rng, ctx.thorough()))
+    if ctx.replay:
+        w = json.load(open(ctx.replay)).get("witness", {})
+        if w.get("mode") == "e2e" and isinstance(w.get("case"), dict):
+            cases = [w["case"]["line"]]
+        elif w.get("mode") == "ops":
+            cases = []
+    outs = run_parallel(impl, cases, "e2e", ctx.bdir, min(8, vlib.NCPU)) if cases else []
+    viol, mism = [], []
+    hist = {"steps": 0, "with_fault": 0, "with_truncation": 0, "cold_rejects_unwarmed": 0, "hot_files_removed": 0,
+            "cold_pack_reads": 0, "warm_up_calls": 0, "inner_calls_logged": 0, "prefixes_checked_by_inv_b": 0,
+            "histories_compared_with_single_store": 0}
+    step_names = ["backup", "forget", "prune", "config", "check", "restore", "repair_index"]
+    log_lines, rep_lines, parsed = [], [], []
+    for line, o in zip(cases, outs):
+        if not o.startswith("{"):
+            viol.append(("e2e run panicked or produced no result", {"line": line}, o, None)); parsed.append(None); continue
+        d = json.loads(o)
+        parsed.append(d)
+        log_lines.append(cut_log(d["log"], d["hist_len"]))
+        log_lines.append(d["log"])
+        rep_lines.append(d["repair_in"])
+    lo = run_lines(model, log_lines, "log", ctx.bdir) if (model and log_lines) else []
+    ro = run_lines(model, rep_lines, "repair", ctx.bdir) if (model and rep_lines) else []
+    k = 0
+    e2e_samples = []
+    for line, d in zip(cases, parsed):
+        if d is None: continue
+        t = [int(x) for x in line.split()]
+        fail_at = t[-1]; trunc = t[-2]; rejects = t[1]
+        case = {"line": line}
+        faulted = fail_at and fail_at <= d["hist_len"]
+        hist["with_fault"] += 1 if faulted else 0
+        hist["with_truncation"] += 1 if d["truncated"] else 0
+        hist["cold_rejects_unwarmed"] += rejects
+        hist["hot_files_removed"] += d["removed_hot"]
+        hist["cold_pack_reads"] += d["cold_pack_reads"]
+        hist["warm_up_calls"] += d["warm_up_calls"]
+        hist["inner_calls_logged"] += int(d["log"].split()[1 + int(d["log"].split()[0])])
+        if d["init_hc"] != "ok" or d["init_single"] != "ok":
+            viol.append(("init fails", case, d, None))
+        # results vs. single store (until an injected fault makes the histories differ)
+        diverged = False
+        for si, (s, mark) in enumerate(zip(d["steps"], d["marks"])):
+            nm = step_names[s["step"][0]]
+            hist["steps"] += 1
+            hist["step_" + nm] = hist.get("step_" + nm, 0) + 1
+            if faulted and mark >= fail_at: diverged = True
+            if diverged: continue
+            if s["hc"] != s["single"] or s["obs_hc"] != s["obs_single"]:
+                viol.append(("%s on the hot/cold repository gives a different result than on the single-store repository" % nm,
+                             case, {"step_index": si, "step": s}, None))
+            elif s["hc"].startswith("err"):
+                viol.append(("%s fails (on both repositories)" % nm, case, {"step_index": si, "step": s}, None))
+            elif nm == "check" and s["hc"] != "ok clean":
+                viol.append(("check reports errors on a healthy hot/cold repository", case, {"step_index": si, "step": s}, None))
+            elif nm == "restore" and s["hc"] not in ("ok same=true", "ok none"):
+                viol.append(("restore from the hot/cold repository differs from the source", case, {"step_index": si, "step": s}, None))
+        if not faulted: hist["histories_compared_with_single_store"] += 1
+        if rejects and (d["unwarmed_reads_history"] or d["unwarmed_reads_repair"]):
+            viol.append(("a command read a cold file without warming it up first (the cold store rejected %d reads)" % (d["unwarmed_reads_history"] + d["unwarmed_reads_repair"]), case, d["steps"], None))
+        if model:
+            h, full = lo[k], lo[k + 1]; rmodel = ro[k // 2]; k += 2
+            hist["prefixes_checked_by_inv_b"] += d["hist_len"]
+            if not h.startswith("ok"):
+                viol.append(("hot store incomplete after inner call #%s of the history (extracted inv_b false on that prefix of the op log)" % h.split()[1], case, {"log": cut_log(d["log"], d["hist_len"]), "model": h}, None))
+            elif "ca=1" not in h:
+                mism.append((line, "the history writes one id with two contents (outside the theorem's hypothesis)", h))
+            # after an injected failure the hot store may hold files of the aborted command that the cold
+            # store never got; the repair copies them to cold (documented: "copies missing files from one to
+            # the other part"), so `check` may then report them - not part of the property
+            chk_ok = d["repair"] == "ok clean" or (faulted and d["repair"].startswith("ok errors"))
+            rep_ok = chk_ok and not d["cold_changed"] and "final=1" in full
+            if not rep_ok:
+                sig = SIG_REPAIR_MISMATCH if (d["truncated"] and d["cold_changed"]) else None
+                what = ("repair hotcold copies an incomplete hot file over the intact cold file" if sig else
+                        "after removing hot files, repair hotcold does not restore a complete hot store (repair: %s, cold files changed: %s, inv_b: %s)" % (d["repair"][:80], d["cold_changed"], full.split()[-1]))
+                viol.append((what, case, {k2: d[k2] for k2 in ("repair", "cold_changed", "state_before_repair", "state_after_repair", "truncated", "removed_hot")}, sig))
+            if rmodel != d["state_after_repair"]:
+                mism.append((line, d["state_after_repair"], rmodel))
+        if len(e2e_samples) < 2:
+            e2e_samples.append({"case": line, "steps": [(s["step"], s["hc"]) for s in d["steps"]], "repair": d["repair"], "removed_hot": d["removed_hot"], "truncated": d["truncated"]})
+    cov["e2e"] = {"cases": len(cases), "distribution": hist, "samples": e2e_samples, "model_impl_mismatches": len(mism),
+                  "rule": "e2e case = history of 4-15 commands (backup of one of 6 overlapping source variants, forget, prune instant/two-phase with max-unused 0 so that packs are repacked, config change, check, restore + comparison with the source, repair index --read-all) run on hot+cold (every inner mutating call logged, cold store rejects un-warmed reads in 85% of the cases, the warm set is cleared before every command, 30% of the cases with one injected inner failure) and on a single store; then each hot file removed with probability 0/0.2/0.5/1, hot config removed in 40%, one remaining hot file cut to half in 50%, then open_only_cold + init_hot + repair_hotcold_except_packs + repair_hotcold_packs + check"}
+    cov["evaluations"] = cov.get("evaluations", 0) + len(cases)
+    cov["traces_validated_against_impl"] = cov.get("traces_validated_against_impl", 0) + len(cases)
+    return viol, mism
